@@ -99,6 +99,11 @@ ROUTES = ['csr-sorted', 'csr-reversed', 'explicit-zero', 'csc', 'coo', 'dense-ar
 ACCESSORS = ['none', 'nnz', 'data-sample', 'data-observation', 'iter', 'eq-self', 'sum', 'density', 'tsv-absent-key']
 
 
+# further read-only calls, explored in the thorough tier with one side untouched or the same call on both sides
+EXTRA_ACCESSORS = ['to-json', 'to-hdf5', 'str', 'nonzero', 'nonzero-counts', 'min-max', 'head', 'ids-and-matrix', 'value-by-ids',
+                   'iter-pairwise', 'metadata-lookup', 'descriptive-equality', 'transpose-discarded', 'copy-discarded', 'is-empty-length']
+
+
 def touch(t, how, atm):
     if how == 'nnz':
         t.nnz
@@ -116,6 +121,49 @@ def touch(t, how, atm):
         t.get_table_density()
     elif how == 'tsv-absent-key':       # an export naming a metadata category no observation carries
         t.to_tsv(header_key='lineage', header_value='lineage')
+    elif how == 'to-json':
+        t.to_json('earlier')
+    elif how == 'to-hdf5':
+        from checks.h5spec import new_store
+        import datetime
+        t.to_hdf5(new_store(), 'earlier', creation_date=datetime.datetime(2020, 1, 1))
+    elif how == 'str':
+        t.__str__()
+        t.__repr__()
+    elif how == 'nonzero':
+        list(t.nonzero())
+    elif how == 'nonzero-counts':
+        t.nonzero_counts('sample')
+        t.nonzero_counts('observation', binary=False)
+    elif how == 'min-max':
+        call(lambda: t.min('whole'))      # (defined only where a vector has a non-zero entry: C19; here only the side effects matter)
+        call(lambda: t.max('sample'))
+    elif how == 'head':
+        t.head(1, 1)
+    elif how == 'ids-and-matrix':
+        t.ids()
+        t.ids(axis='observation')
+        t.matrix_data
+    elif how == 'value-by-ids':
+        t.get_value_by_ids(atm.obs_ids[0], atm.samp_ids[-1])
+        t[0, 0]
+    elif how == 'iter-pairwise':
+        list(t.iter_pairwise(axis='observation'))
+        list(t.iter_data(axis='sample', dense=False))
+    elif how == 'metadata-lookup':
+        t.metadata(atm.obs_ids[0], axis='observation')
+        t.metadata(axis='sample')
+        t.group_metadata('sample')
+    elif how == 'descriptive-equality':
+        t.descriptive_equality(t)
+    elif how == 'transpose-discarded':
+        t.transpose()
+    elif how == 'copy-discarded':
+        t.copy()
+    elif how == 'is-empty-length':
+        t.is_empty()
+        t.length('sample')
+        t.shape
 
 
 def _doc_equal(d1, d2):
@@ -173,6 +221,8 @@ def h_equal(nr, nc, route, accs=ACCESSORS):
     Bt = alt_table(a, a.dense, route, object_ids=(len(accs) == len(ACCESSORS) and flag('ids-as-object-array')))
     if len(accs) == len(ACCESSORS):
         pairs = [(x, y) for x in accs for y in accs]
+        for x in EXTRA_ACCESSORS:
+            pairs += [(x, 'none'), ('none', x), (x, x)]
     else:       # quick tier: one side untouched, or the same call on both sides
         pairs = [(x, 'none') for x in accs] + [('none', y) for y in accs[1:]] + [(x, x) for x in accs[1:]]
     acc_a, acc_b = pairs[choice(len(pairs), 'read-only-calls-before')]
